@@ -121,6 +121,10 @@ def accuracy_case(case):
     b = driver.Budget(40000)
     r.n = 1
     try:
+        # 'hops': the run is made in several calls (a nearby target first, then on to the end): the step the system carries from one call to the next
+        # is an initial step like any other
+        for hop in case.get("hops", []):
+            a.integrate(lc.DT[case.get("dtype", "float64")](hop), callback=[cb, b])
         a.integrate(callback=[cb, b])
     except de.exception_types.FailedIntegration as e:
         if driver.budget_hit(e):
@@ -327,6 +331,19 @@ def run(ctx):
                             skipped += 1
                             continue
                         cases.append(dict(section="acc", method=m, problem=prob, span=[t0, tf], tol=tol, dt0=dt0))
+    # long spans ('initial dt ... larger than the span' on a span of 20 is a first trial step of 10, far outside the region where the error estimate means
+    # anything: every retry must still be judged on its own), and runs made in two calls with a nearby first target
+    for m in PAIRS + RICH[:2]:
+        for (t0, tf) in ((0.0, 20.0), (20.0, 0.0), (-10.0, 10.0)):
+            for tol in (1e-5, 1e-8):
+                for dt0, hops in ((10.0, []), (50.0, []), (0.01, [t0 + 0.005 * (1 if tf > t0 else -1)]), (1.0, [t0 + 0.25 * (1 if tf > t0 else -1)])):
+                    order = {"HeunEulerSolver": 2, "RICH:EulerSolver:3": 2, "RICH:SymplecticEulerSolver:3": 2, "RICH:MidpointSolver:3": 3, "LobattoIIIC4": 4}.get(m, 5)
+                    est_steps = 20.0 / (tol ** (1.0 / order))
+                    if est_steps > 2e4 or (ctx.quick and est_steps > 3000) or (m.startswith("RICH") and est_steps > 600) or m in ("RadauIIA19", "RadauIIA5", "LobattoIIIC4"):
+                        continue
+                    if ctx.quick and (t0, tf) == (-10.0, 10.0):
+                        continue
+                    cases.append(dict(section="acc", method=m, problem="rotation", span=[t0, tf], tol=tol, dt0=dt0, hops=hops))
     # unequal tolerances on solutions far from unit size (the controller must weigh atol and rtol as documented: atol + rtol*|y|)
     for m in PAIRS + RICH[:3]:
         for prob in ("rotation", "damped"):
